@@ -85,6 +85,7 @@ TABLE = {
     "mesh": ("MESH", "--mesh", "value"), "mp_shift": ("MP_SHIFT", None, "value"), "gc": ("GAMMA_CENTER", "--gc", "true"), "nomeshsym": ("MESH_SYMMETRY", "--nomeshsym", "false"),
     "eigvecs": ("EIGENVECTORS", "--eigvecs", "true"), "gv": ("GROUP_VELOCITY", "--gv", "true"), "nowritemesh": ("WRITE_MESH", "--nowritemesh", "false"),
     "band": ("BAND", "--band", "value"), "band_points": ("BAND_POINTS", "--band-points", "value"), "band_connection": ("BAND_CONNECTION", "--band-connection", "true"),
+    "band_const_interval": ("BAND_CONST_INTERVAL", "--band-const-interval", "true"),
     "qpoints": ("QPOINTS", "--qpoints", "value"), "writedm": ("WRITEDM", "--writedm", "true"),
     "dos": ("DOS", "--dos", "true"), "sigma": ("SIGMA", "--sigma", "value"), "fmin": ("FMIN", "--fmin", "value"), "fmax": ("FMAX", "--fmax", "value"), "fpitch": ("FPITCH", "--fpitch", "value"),
     "pdos": ("PDOS", "--pdos", "value"), "xyz_projection": ("XYZ_PROJECTION", "--xyz-projection", "true"),
@@ -95,6 +96,7 @@ TABLE = {
     "nosym": ("SYMMETRY", "--nosym", "false"), "tolerance": ("SYMMETRY_TOLERANCE", "--tolerance", "value"), "fc_symmetry": ("FC_SYMMETRY", "--fc-symmetry", "true"),
     "full_fc": ("FULL_FORCE_CONSTANTS", "--full-fc", "true"), "readfc": ("READ_FORCE_CONSTANTS", "--readfc", "true"), "writefc": ("WRITE_FORCE_CONSTANTS", "--writefc", "true"),
     "writefc_format": ("WRITEFC_FORMAT", "--writefc-format", "value"), "readfc_format": ("READFC_FORMAT", "--readfc-format", "value"),
+    "fc_format": ("FC_FORMAT", "--fc-format", "value"),  # one setting for both directions
     "factor": ("FREQUENCY_CONVERSION_FACTOR", "--factor", "value"), "mesh_format": ("MESH_FORMAT", "--mesh-format", "value"),
     "band_format": ("BAND_FORMAT", "--band-format", "value"), "qpoints_format": ("QPOINTS_FORMAT", "--qpoints-format", "value"),
     "include_all": ("INCLUDE_ALL", "--include-all", "true"), "fc_calc": ("FC_CALCULATOR", "--fc-calc", "value"),
@@ -167,14 +169,17 @@ def gen_post_step(rng, w, has_born, prev_wrote_fc, force_cmd=None):
             path.reverse()
         s["band"] = "  ".join(_fmt(p) for p in path)
         s["band_points"] = rng.choice([3, 5, 11])
+        if len(path) > 2 and rng.random() < 0.4:
+            s["band_const_interval"] = True  # segments sampled with similar spacing: needs the reciprocal lattice
+            s["band_points"] = rng.choice([11, 17])
         if rng.random() < 0.3:
             s["band_connection"] = True
         if rng.random() < 0.3:
             s["eigvecs"] = True
         if rng.random() < 0.25:
             s["gv"] = True
-        if rng.random() < 0.25 and mode == "band":
-            s["band_format"] = "hdf5"
+        if rng.random() < 0.25 and mode == "band" and not s.get("band_const_interval"):
+            s["band_format"] = "hdf5"  # (not with segments of different lengths: BandStructure.write_hdf5 cannot store a ragged path list)
         if mode == "band_mesh":
             for k in ("eigvecs", "gv", "band_connection"):
                 s.pop(k, None)
@@ -222,7 +227,7 @@ def gen_post_step(rng, w, has_born, prev_wrote_fc, force_cmd=None):
         if rng.random() < 0.5:
             s["full_fc"] = True
         if rng.random() < 0.5:
-            s["writefc_format"] = "hdf5"
+            s[rng.choice(["writefc_format", "fc_format"])] = "hdf5"
     elif mode == "readfc":
         s["readfc"] = True
         s["mesh"] = _fmt(mesh)
@@ -252,7 +257,7 @@ def gen_post_step(rng, w, has_born, prev_wrote_fc, force_cmd=None):
         s["tolerance"] = 1e-4
     if rng.random() < 0.15:
         s["include_all"] = True
-    if rng.random() < 0.08 and mode in ("mesh", "band", "qpoints") and not any(k.endswith("_format") for k in s):
+    if rng.random() < 0.08 and mode in ("mesh", "band", "qpoints") and not any(k.endswith("_format") for k in s) and not s.get("band_const_interval"):
         s["hdf5"] = True  # all outputs of the step in hdf5
     if rng.random() < 0.2 and mode in ("dos", "tprop"):
         s["nowritemesh"] = True
@@ -298,9 +303,9 @@ def gen_spec(seed, index, tier):
     for _ in range(rng.randint(1, 3)):
         st = gen_post_step(rng, w, has_born, wrote_fc, force_cmd=("phonopy" if stale_planned else None))
         if st["mode"] == "writefc":
-            wrote_fc = st["settings"].get("writefc_format", "text")
+            wrote_fc = st["settings"].get("writefc_format", st["settings"].get("fc_format", "text"))
         if st["mode"] == "readfc" and wrote_fc == "hdf5":
-            st["settings"]["readfc_format"] = "hdf5"
+            st["settings"][rng.choice(["readfc_format", "fc_format"])] = "hdf5"
         steps.append(st)
     all_names = sorted(set(disp) | set(k for st in steps for k in st["settings"]) | {"dim", "pa", "cell"})
     routes = {n: rng.choice(["tag", "opt"]) for n in all_names}
@@ -371,7 +376,7 @@ def _ref_object(spec, s, path, cmd):
         # no explicit file names unless --readfc names a format: like the command, load() then discovers FORCE_CONSTANTS /
         # force_constants.hdf5 (left by an earlier write-fc step of the same workflow) ahead of FORCE_SETS
         if s.get("readfc"):
-            lkw["force_constants_filename"] = "force_constants.hdf5" if s.get("readfc_format") == "hdf5" else "FORCE_CONSTANTS"
+            lkw["force_constants_filename"] = "force_constants.hdf5" if s.get("readfc_format", s.get("fc_format")) == "hdf5" else "FORCE_CONSTANTS"
         if "pa" in s:
             lkw["primitive_matrix"] = s["pa"]
         fc_from_file = bool(s.get("readfc")) or os.path.exists("FORCE_CONSTANTS") or os.path.exists("force_constants.hdf5")
@@ -404,7 +409,7 @@ def _ref_object(spec, s, path, cmd):
         ph.masses = [float(x) for x in s["mass"].split()]
     full = bool(s.get("full_fc", False))
     if s.get("readfc"):
-        if s.get("readfc_format") == "hdf5":
+        if s.get("readfc_format", s.get("fc_format")) == "hdf5":
             fc = read_force_constants_hdf5("force_constants.hdf5", p2s_map=ph.primitive.p2s_map)
         else:
             fc = parse_FORCE_CONSTANTS("FORCE_CONSTANTS", p2s_map=ph.primitive.p2s_map)
@@ -449,7 +454,10 @@ def child_reference(args):
         from phonopy.phonon.band_structure import get_band_qpoints
 
         pts = np.array([float(x) for x in s["band"].split()]).reshape(-1, 3)
-        bands = get_band_qpoints([pts], npoints=int(s.get("band_points", 51)))
+        if s.get("band_const_interval"):
+            bands = get_band_qpoints([pts], npoints=int(s.get("band_points", 51)), rec_lattice=np.linalg.inv(ph.primitive.cell))
+        else:
+            bands = get_band_qpoints([pts], npoints=int(s.get("band_points", 51)))
         ph.run_band_structure(bands, with_eigenvectors=bool(s.get("eigvecs")), with_group_velocities=bool(s.get("gv")), is_band_connection=bool(s.get("band_connection")))
         d = ph.get_band_structure_dict()
         out.update(q=np.concatenate(d["qpoints"]), freq=np.concatenate(d["frequencies"]),
@@ -589,7 +597,7 @@ def parse_outputs(path, step):
     elif mode == "writefc":
         from phonopy.file_IO import parse_FORCE_CONSTANTS, read_force_constants_hdf5
 
-        if s.get("writefc_format") == "hdf5":
+        if s.get("writefc_format", s.get("fc_format")) == "hdf5":
             fc_, unit_ = read_force_constants_hdf5(j("force_constants.hdf5"), return_physical_unit=True)
             out.update(fc=fc_, fc_unit=unit_, _dec=None)
         else:
